@@ -215,6 +215,19 @@ def run(tier):
         si, oi = back[idx - 1]
         e = events[idx - 1]
         verdict.add_drift(f"{reason} but {e['res']}: {e['call']} [{e['cls']}] in {scripts[si]['id']}")
+    # the inputs of the canonicalization checks (TLC-generated trees, sibling-merge rows, split tokens, adjacent wrappers, escaping
+    # matrix, suite expressions and their mutants): C01/C02/C09 skip what does not return Ok - a panic or a hang there is this
+    # property's business
+    import canon
+    ccases, _ = canon.build_cases(tier, wd)
+    cres = canon.run_cases(ccases, wd)
+    canon_not_alive = 0
+    for cc, rr in zip(ccases, cres):
+        if rr is not None and rr["r"] not in ("ok", "err"):
+            canon_not_alive += 1
+            verdict.reject(f"canon-input|{rr['r']}|{S.fp(cc['mathml'])}", f"set_mathml {rr['r']} ({str(rr['v'])[:160]!r}) on {cc['origin']} input {cc['mathml'][:300]}",
+                           {"script": [{"op": "set_rules_dir", "dir": "$RULES"}, {"op": "set_mathml", "mathml": cc["mathml"]}]},
+                           text=json.dumps({"reason": "set_mathml-" + rr["r"], "origin": cc["origin"], "mathml": cc["mathml"][:500], "msg": str(rr["v"])[:300]}, ensure_ascii=False))
     # cross-subsystem walks judged against the umbrella specification (Session.tla); this property's clauses only
     import sessionwalk
     sw_model = sessionwalk.model_check(wd, tier)
@@ -222,7 +235,7 @@ def run(tier):
     rc = verdict.finish(wd)
     calls_ev = [e for e in events if e["call"] != "session"]
     C.write_evidence(PID, tier, "model_checking", {
-        **sw,
+        **sw, "canonicalization_inputs_run": len(ccases), "canonicalization_inputs_panic_or_hang": canon_not_alive,
         "session_model_distinct_states": sw_model["distinct"],
         "states": m1["distinct"], "transitions": m1["states"],
         "traces_validated_against_impl": len(scripts),
